@@ -619,7 +619,7 @@ fn main() {
     let narrow = !(probe(Pfx { fam: 6, len: 32, bits: 0x20010db8 }) && probe(Pfx { fam: 4, len: 2, bits: 1 }));
     rec.bump(if narrow { "store.overflow-checked-build(v4>=/5-only)" } else { "store.full-prefix-range" });
     let mut g = Gen { rng: Rng::new(args.seed), narrow };
-    let (npop, nq) = if args.thorough { (6000, 40) } else { (400, 25) };
+    let (npop, nq) = if args.thorough { (8000, 40) } else { (1500, 30) };
     for _ in 0..npop {
         let (pop, bases) = g.pop();
         let fx = match pop.build() { Ok(f) => f, Err(e) => { rec.bump(&format!("build-error.{}", e.split_whitespace().next().unwrap_or("?"))); if std::env::var("C11_PANICS").is_ok() { eprintln!("{e}"); } continue } };
